@@ -215,7 +215,8 @@ fn get_global_info(root: &Node<'_>) -> GlobalInfo {
             }
         }
     }
-    if (max - min) * 1000.0 > (one_max - one_min) {
+    // NOTE min and max are half the sum of the payoffs, the tolerance is on the sum itself
+    if (max - min) * 2000.0 > (one_max - one_min) {
         panic!(
             "gambit file wasn't constant sum : https://github.com/erikbrinkman/cfr#constant-sum"
         );
